@@ -92,7 +92,7 @@ func c10(c *Ctx) {
 				"type tests: == "+u64s(eq)+" ; range tests: "+stringsJoin(other))
 		}
 	}
-	r.Floor("H264 layout rows", n, 9)
+	r.Floor("H264 layout rows", n, 7)
 	var entries []*ssa.Function
 	for _, nme := range []string{"codecs.(*H264Payloader).Payload", "codecs.(*H264Packet).Unmarshal", "codecs.(*H264Packet).IsPartitionHead"} {
 		if f := p.Func(nme); f != nil {
@@ -266,7 +266,7 @@ func c11(c *Ctx) {
 		n++
 		r.Add("STRUCT.const", "codecs.(*VP8Payloader).Payload", "picture id kept to 15 bits after increment", p.Position(fn.Pos()), okw, "no store to pictureID has bit 15 cleared")
 	}
-	r.Floor("VP8 layout rows", n, 20)
+	r.Floor("VP8 layout rows", n, 14)
 	np := presenceRule(c, "codecs.(*VP8Packet).Unmarshal", []presRow{
 		{"X", []string{"I", "L", "T", "K"}}, {"I", []string{"PictureID"}}, {"L", []string{"TL0PICIDX"}},
 		{"T", []string{"TID", "Y"}}, {"K", []string{"KEYIDX"}}})
@@ -350,7 +350,7 @@ func c12(c *Ctx) {
 		r.Add("STRUCT.const", "codecs.(*VP9Payloader).Payload", "initial picture id masked to 15 bits; increment wraps to 0 at 0x8000", p.Position(fn.Pos()),
 			okInit && okWrap && okZero && nStores >= 3, "stores to pictureID / wrap comparison not as specified")
 	}
-	r.Floor("VP9 layout rows", n, 29)
+	r.Floor("VP9 layout rows", n, 20)
 	np := presenceRule(c, "codecs.(*VP9Packet).Unmarshal", []presRow{
 		{"I", []string{"PictureID"}}, {"L", []string{"TID", "U", "SID", "D"}}, {"F&P", []string{"PDiff"}}, {"V", []string{"NS", "Y", "G"}}})
 	np += presenceRule(c, "codecs.(*VP9Packet).parseLayerInfo", []presRow{{"!F", []string{"TL0PICIDX"}}})
